@@ -929,7 +929,9 @@ class Engine:
 
     # ---------------------------------------------------------------- specs
     def spec(self, src, st, **kw):
-        if callable(src): return src(Ctx(self, st, **kw))
+        if callable(src):
+            kw.setdefault('pre', getattr(self, 'pre_state', None))
+            return src(Ctx(self, st, **kw))
         raise Unsupported('spec form')
 
     # ---------------------------------------------------------------- driver
